@@ -145,9 +145,25 @@ def parse_linkformat(text):
             if i < n and text[i] == "=":
                 i += 1
                 if text[i] == '"':
-                    j = text.index('"', i + 1)
-                    val = text[i + 1:j]
-                    i = j + 1
+                    # quoted-string with quoted-pairs (RFC 6690 section 2 / RFC 2616): backslash + any character stands for it
+                    i += 1
+                    buf = []
+                    while True:
+                        if i >= n:
+                            raise ValueError("unterminated quoted-string in link-format")
+                        c = text[i]
+                        if c == "\\":
+                            if i + 1 >= n:
+                                raise ValueError("dangling backslash in link-format")
+                            buf.append(text[i + 1])
+                            i += 2
+                        elif c == '"':
+                            i += 1
+                            break
+                        else:
+                            buf.append(c)
+                            i += 1
+                    val = "".join(buf)
                 else:
                     k = i
                     while i < n and text[i] not in ";,":
